@@ -274,7 +274,14 @@ def run(tier, replay=None):
         return report.finish()
     rnd = common.rng("c13")
     cases = gen_cases(rnd, tier)
-    lits = [case_lit(o) for _k, o in cases]
+    wedged, kept, lits = [], [], []
+    for c in cases:
+        lit = common.guarded(lambda c=c: case_lit(c[1]), repr(c[1]), wedged)
+        if lit is not None:
+            kept.append(c)
+            lits.append(lit)
+    cases = kept
+    common.report_wedged(report, wedged, proof)
     bad, stats = evaluate(lits, "c13")
     spec_bad = [(i, m, sc) for i, m, sc in bad if sc >= 30]
     model_bad = [(i, m, sc) for i, m, sc in bad if m >= 10 and sc < 30]
